@@ -69,10 +69,13 @@ Definition m_wlits (minW : Z) : parser (list (Z * Z)) :=
 
 (* matchString (after the repair): len = matchPos(INT_MAX); stream()->get(); copy(buf,(int)len) == (int)len *)
 Definition STR_MAX : Z := INT_MAX.
+(* a_copy k s for k >= 0, evaluated without building the unary number k when k exceeds what is left
+   (C01/ProofsPrim.v: copy_k_eq shows copy_k k s = a_copy k s) *)
+Definition copy_k (k : Z) (s : ast) : Z * list Z * ast := a_copy (Z.min k (Z.of_nat (length (rest s)))) s.
 Definition m_string : parser (list Z) :=
   len <- m_pos STR_MAX ;;
   fun s => let s1 := snd (a_get s) in
-           let '(n, bs, s2) := a_copy len s1 in
+           let '(n, bs, s2) := copy_k len s1 in
            if n =? len then ROk bs s2 else RErr (aline s2).
 
 (* ProgramReader::skipLine: while (str_->peek() && str_->get() != '\n') {} ; at most |rest| characters *)
